@@ -114,8 +114,29 @@ func runC11(p *P, r *R) {
 	}
 	used := map[string]bool{}
 	nSel, nOther := 0, 0
+	// lookup: the entry of the function itself, or — when the wait sits in a helper split off a listed function (same
+	// receiver, called from nowhere else) — the entry of that function
+	lookup := func(f *ssa.Function, kind string) (string, bool) {
+		key := p.fname(f) + "|" + kind
+		if reason, ok := exceptions[key]; ok {
+			used[key] = true
+			return reason, true
+		}
+		for k, reason := range exceptions {
+			i := strings.Index(k, "|")
+			if i < 0 || k[i+1:] != kind {
+				continue
+			}
+			if root := p.fn(k[:i]); root != nil && root != f && inFns(f, p.family(root)) {
+				used[k] = true
+				return reason + " [in helper " + p.fname(f) + " of " + k[:i] + "]", true
+			}
+		}
+		return "", false
+	}
 	for _, f := range p.fnList {
 		fn := p.fname(f)
+		f := f
 		allInstrs(f, func(in ssa.Instruction) {
 			switch x := in.(type) {
 			case *ssa.Select:
@@ -154,9 +175,7 @@ func runC11(p *P, r *R) {
 					"%s (escape = channel closed by a teardown role, ctx.Done(), or an unconditional timer)", why)
 			case *ssa.Send:
 				nOther++
-				key := fn + "|send:" + chanName(p, x.Chan)
-				reason, ok := exceptions[key]
-				used[key] = true
+				reason, ok := lookup(f, "send:"+chanName(p, x.Chan))
 				r.ob("R11.1", fn+": bare channel send on "+chanName(p, x.Chan)+" cannot block forever", p.ipos(in), ok, true,
 					"%s (a bare send has no shutdown/timeout alternative: when the receiver is gone the sender never returns)", reason)
 			case *ssa.UnOp:
@@ -164,24 +183,18 @@ func runC11(p *P, r *R) {
 					return
 				}
 				nOther++
-				key := fn + "|recv:" + chanName(p, x.X)
-				reason, ok := exceptions[key]
-				used[key] = true
+				reason, ok := lookup(f, "recv:"+chanName(p, x.X))
 				r.ob("R11.1", fn+": bare channel receive on "+chanName(p, x.X)+" cannot block forever", p.ipos(in), ok, true, "%s", reason)
 			case *ssa.Call:
 				n := p.calleeName(&x.Call)
 				switch n {
 				case "(*sync.WaitGroup).Wait":
 					nOther++
-					key := fn + "|wait:" + chanNameAddr(p, x.Call.Args[0])
-					reason, ok := exceptions[key]
-					used[key] = true
+					reason, ok := lookup(f, "wait:"+chanNameAddr(p, x.Call.Args[0]))
 					r.ob("R11.1", fn+": WaitGroup.Wait on "+chanNameAddr(p, x.Call.Args[0])+" is a listed, justified wait", p.ipos(in), ok, true, "%s", reason)
 				case "time.Sleep":
 					nOther++
-					key := fn + "|sleep"
-					reason, ok := exceptions[key]
-					used[key] = true
+					reason, ok := lookup(f, "sleep")
 					_, isConst := constInt(x.Call.Args[0])
 					r.ob("R11.1", fn+": sleep is bounded and listed", p.ipos(in), ok && isConst, true, "%s", reason)
 				case "(*sync.Cond).Wait":
